@@ -37,11 +37,7 @@ const (
 	// up to ≈7.6q (C01 known finding: above the documented 6q−2), which for q ≈ 2^61 leaves no headroom
 	// below 2^64. Root cause is in ring/ (C01/C19 territory); the consequence is a C04 violation on
 	// accepted parameters.
-	// ApplyEvaluationKey works at min(input level, receiver level) but, unlike Relinearize and the
-	// Automorphism methods, never resizes a receiver that is above that level: the returned ciphertext
-	// reports the receiver's old level and carries stale residues on the upper primes.
-	sigApplyNoResize = "C04/ApplyEvaluationKey/receiver-above-input-level/not-resized-to-operation-level"
-	sigCIOddLogN61   = "C04/ModDown(NTT)/ConjugateInvariant-ring,odd-logN,61-bit-Q/wrong-result"
+	sigCIOddLogN61 = "C04/ModDown(NTT)/ConjugateInvariant-ring,odd-logN,61-bit-Q/wrong-result"
 )
 
 // digitsTooFew: BaseTwoDecompositionVectorSize allots ceil(round(log2 q_i)/b) digits of b bits to
@@ -214,13 +210,7 @@ func runKS(c *engine.Chooser, name string, p rlwe.Parameters, op int, kp keyPara
 					return fmt.Errorf("metadata not propagated: %+v -> %+v", in, *out.MetaData)
 				}
 				if out.Level() != wantLevel {
-					if aboveInput {
-						c.Fail(sigApplyNoResize, "%s: receiver at level %d above the input (level %d): the result is written on %d primes but the receiver keeps level %d (stale residues on the primes above)",
-							cfg, p.MaxLevel(), level, wantLevel+1, out.Level())
-						out = nil
-						return nil
-					}
-					return fmt.Errorf("output level %d, want min(input, receiver) = %d", out.Level(), wantLevel)
+					return fmt.Errorf("output level %d, want min(input %d, receiver) = %d (aboveInput=%v)", out.Level(), level, wantLevel, aboveInput)
 				}
 			case "Relinearize":
 				rlk := kgen.GenRelinearizationKeyNew(sk, kp.evk())
